@@ -319,7 +319,10 @@ struct Mutator {
         }
         case 4: {  // re-namespace
             const char *ns = NAMESPACES[rng() % (sizeof(NAMESPACES) / sizeof(char *))];
-            el.setAttribute(u"xmlns"_s, QString::fromLatin1(ns));
+            // namespace URIs are attribute values: quotes and markup characters are legal in them (escaped on input)
+            static const char *HOSTILE_NS[] = { "urn:q\"uote", "urn:x\"/></message><iq type=\"set\" id=\"smuggled\"><query xmlns=\"jabber:iq:roster", "urn:a<b>c", "urn:a&b;c", "urn:a'b", "urn:]]>", "urn:\xc3\xa9\xe4\xb8\xad" };
+            if (rng() % 5 == 0) ns = HOSTILE_NS[rng() % (sizeof(HOSTILE_NS) / sizeof(char *))];
+            el.setAttribute(u"xmlns"_s, QString::fromUtf8(ns));
             break;
         }
         case 5: {  // strip attribute
